@@ -102,14 +102,34 @@ def build(src_text, flavour='gxx', extra=(), link_handler=True, name='tu', timeo
     finally:
         shutil.rmtree(tmpd, ignore_errors=True)
 
-def run(exe, args=(), stdin=None, timeout=600, env=None, cwd=None):
+MEM_LIMIT_MB = int(os.environ.get('VERIF_MEM_MB', '6000'))
+
+def _limits():
+    # plain builds: cap the address space so that a runaway parse cannot exhaust the machine (sanitizer builds reserve
+    # terabytes of shadow memory, they are capped through hard_rss_limit_mb instead)
+    import resource
+    try: resource.setrlimit(resource.RLIMIT_AS, (MEM_LIMIT_MB * 1024 * 1024, MEM_LIMIT_MB * 1024 * 1024))
+    except Exception: pass
+
+def run(exe, args=(), stdin=None, timeout=600, env=None, cwd=None, sanitized=None):
     """Run a built binary. Returns (returncode, stdout bytes, stderr bytes, timed_out)."""
     e = dict(os.environ)
     e.setdefault('ASAN_OPTIONS', 'abort_on_error=0:detect_leaks=1:halt_on_error=1:allocator_may_return_null=1')
     e.setdefault('UBSAN_OPTIONS', 'print_stacktrace=1:halt_on_error=1')
     if env: e.update(env)
+    for k in ('ASAN_OPTIONS', 'TSAN_OPTIONS'):
+        if 'hard_rss_limit_mb' not in e.get(k, ''): e[k] = (e.get(k, '') + ':' if e.get(k) else '') + 'hard_rss_limit_mb=%d' % MEM_LIMIT_MB
+    if sanitized is None:
+        try:
+            with open(exe, 'rb') as f: sanitized = (b'__asan_init' in f.read(4000000)) or False
+        except Exception: sanitized = True
+        if not sanitized:
+            try:
+                with open(exe, 'rb') as f: blob = f.read()
+                sanitized = b'__tsan_init' in blob or b'__asan_init' in blob or b'LLVMFuzzerTestOneInput' in blob
+            except Exception: sanitized = True
     try:
-        r = subprocess.run([exe] + list(args), input=stdin, capture_output=True, timeout=timeout, env=e, cwd=cwd)
+        r = subprocess.run([exe] + list(args), input=stdin, capture_output=True, timeout=timeout, env=e, cwd=cwd, preexec_fn=None if sanitized else _limits)
         return r.returncode, r.stdout, r.stderr, False
     except subprocess.TimeoutExpired as ex:
         return -9, ex.stdout or b'', ex.stderr or b'', True
